@@ -406,6 +406,98 @@ func checkFrameCarrier(res *core.Result, b *frame.Builder, fwd, ret []m.SwitchLa
 	}
 }
 
+// checkFrameLifecycle: one frame object carries a request over the path, is given a bigger appendix on the way (a
+// relay attaching data), is turned into a reply of another size at the destination (in place, as the handshake
+// code does with Reply) and carries that reply back over the reversed block. Every hop asks the frame for its
+// switch block and rotates it, as the switch does. After every step the bytes that would go on the wire must
+// carry exactly the block a plain byte slice holds after the same rotations, and the message behind it.
+func checkFrameLifecycle(res *core.Result, b *frame.Builder, r *rand.Rand, fwd, ret []m.SwitchLabel) {
+	if refSize(fwd, ret) > 255 {
+		return
+	}
+	hops := make([]m.SwitchHop, len(fwd))
+	for i := range hops {
+		hops[i] = m.SwitchHop{ForwardLabel: fwd[i], ReturnLabel: ret[i]}
+	}
+	sp := &m.SwitchPath{Hops: hops}
+	if err := sp.BuildBlocks(); err != nil {
+		return
+	}
+	size := len(sp.ForwardBlock)
+	apxSize := []int{0, 30, 700, 3000, 9000}[r.IntN(5)]
+	replySize := []int{16, 400, 700, 2000, 6000}[r.IntN(5)]
+	apxAt := r.IntN(len(fwd))
+	wit := map[string]any{"forward_labels": fwd, "return_labels": ret, "block_size": size, "appendix_grown_to": apxSize, "at_hop": apxAt, "reply_size": replySize, "case_id": fmt.Sprintf("frame-lifecycle|%d|%d|%d", size, apxSize, replySize)}
+	msg := core.RandBytes(r, 40)
+	src, dst := netip.MustParseAddr("fd10::1"), netip.MustParseAddr("fd20::9")
+	f, err := b.NewFrameV1(src, dst, frame.SessionData, sp.ForwardBlock, msg, nil)
+	if err != nil {
+		return // judged by checkFrameCarrier
+	}
+	defer f.ReturnToPool()
+	ref := append([]byte(nil), sp.ForwardBlock...)
+	onWire := func(step string, wantMsg []byte) bool {
+		d, err := f.FrameDataWithMargins(0, 0)
+		if err != nil {
+			res.Violate("frame-lifecycle:no-frame-data", fmt.Sprintf("%s: %v", step, err), wit)
+			return false
+		}
+		sw := int(d[48])
+		if sw != len(ref) || !bytes.Equal(d[49:49+sw], ref) {
+			res.Violate("frame-lifecycle:wire-block-differs", fmt.Sprintf("%s: the frame's bytes carry switch block %x, the same rotations on a plain slice give %x (block size %d, appendix grown to %d at hop %d, reply of %d bytes)", step, d[49:49+min(sw, len(d)-49)], ref, size, apxSize, apxAt, replySize), wit)
+			return false
+		}
+		if !bytes.Equal(f.MessageData(), wantMsg) {
+			res.Violate("frame-lifecycle:message-changed", fmt.Sprintf("%s: the message behind the switch block changed", step), wit)
+			return false
+		}
+		return true
+	}
+	for i := 0; i < len(fwd); i++ {
+		if i == apxAt && apxSize > 0 {
+			if err := f.SetAppendixData(core.RandBytes(r, apxSize)); err != nil {
+				res.Count("frame_lifecycle_appendix_refused", 1)
+			} else if !onWire(fmt.Sprintf("after growing the appendix at hop %d", i), msg) {
+				return
+			}
+		}
+		next, err := m.NextRotateSwitchBlock(f.SwitchBlock(), ret[i])
+		want, _ := m.NextRotateSwitchBlock(ref, ret[i])
+		if err != nil || next != want || next != fwd[i] {
+			res.Violate("frame-lifecycle:wrong-label", fmt.Sprintf("forward hop %d: the frame's block gave label %d (err %v), want %d", i, next, err, fwd[i]), wit)
+			return
+		}
+		if !onWire(fmt.Sprintf("after forward hop %d", i), msg) {
+			return
+		}
+	}
+	// the destination answers in place over the reversed block
+	rb := append([]byte(nil), f.SwitchBlock()...)
+	m.TransformToReturnBlock(rb)
+	reply := core.RandBytes(r, replySize)
+	if err := f.Reply(rb, reply, nil); err != nil {
+		res.Violate("frame-lifecycle:reply-refused", fmt.Sprintf("turning the frame into a %d-byte reply over its reversed %d-byte block failed: %v", replySize, size, err), wit)
+		return
+	}
+	ref = append([]byte(nil), rb...)
+	if !onWire("after turning the frame into a reply", reply) {
+		return
+	}
+	for i := len(fwd) - 1; i >= 0; i-- {
+		next, err := m.NextRotateSwitchBlock(f.SwitchBlock(), fwd[i])
+		want, _ := m.NextRotateSwitchBlock(ref, fwd[i])
+		if err != nil || next != want || next != ret[i] {
+			res.Violate("frame-lifecycle:wrong-label", fmt.Sprintf("return hop %d: the frame's block gave label %d (err %v), want %d", i, next, err, ret[i]), wit)
+			return
+		}
+		if !onWire(fmt.Sprintf("after return hop %d", i), reply) {
+			return
+		}
+	}
+	res.Count("frame_lifecycles_checked", 1)
+	res.Case(fmt.Sprintf("frame-lifecycle|%d|%d|%d|%d", len(fwd), size/32, apxSize, replySize), true)
+}
+
 // meshTraversal: the forward block of a real route (learned from real announcements) is carried by a frame
 // through the real switches of a virtual mesh; at the destination the block in the frame must reverse to exactly
 // the route's return block, and a frame sent back over that reversed block must arrive at the origin.
@@ -481,6 +573,116 @@ func meshTraversal(res *core.Result, r *rand.Rand, t *vmesh.Topology, labels vme
 			}
 			res.Count("mesh_routes_traversed_and_reversed", 1)
 			res.Case(fmt.Sprintf("mesh|%s|%d|%d", desc, len(e.Path.Hops), len(e.Path.ForwardBlock)), true)
+		}
+	}
+}
+
+// meshTraversalLive: the same traversal, but through the real worker pools of the switches (Switch.Start, frames
+// fed through the switch's input channel) instead of the synchronous hook, so that the worker loop itself is part
+// of what is observed.
+func meshTraversalLive(res *core.Result, r *rand.Rand, t *vmesh.Topology, labels vmesh.LabelMode) {
+	ids := make([]*m.Address, t.N)
+	for i := range ids {
+		ids[i] = env.NewIdentity(r, nil)
+	}
+	ms, err := vmesh.Build(r, t, ids, vmesh.BuildOpts{Labels: labels, Introduce: true})
+	if err != nil {
+		res.Inconcl("build: %v", err)
+		return
+	}
+	if err := ms.Converge(r, false); err != nil {
+		res.Inconcl("mesh did not converge (C09's business): %v", err)
+		return
+	}
+	if err := ms.StartSwitches(); err != nil {
+		res.Inconcl("start switches: %v", err)
+		return
+	}
+	defer ms.StopSwitches()
+	desc := fmt.Sprintf("%s labels=%d (live switch workers)", t.Canon(), labels)
+	// carry sends a frame with the given block from node `from` and follows it through the live switches
+	carry := func(from *vmesh.Node, dst netip.Addr, block []byte) (at int, data []byte, crossings int, lost bool, ok bool) {
+		blk := append([]byte(nil), block...)
+		first, err := m.NextRotateSwitchBlock(blk, 0)
+		if err != nil || first == 0 {
+			return 0, nil, 0, false, false
+		}
+		f, err := from.Inst.BuilderV.NewFrameV1(from.ID.IP, dst, frame.SessionData, blk, core.RandBytes(r, 60), nil)
+		if err != nil {
+			return 0, nil, 0, false, false
+		}
+		fd, _ := f.FrameDataWithMargins(0, 0)
+		key := vmesh.Key(fd)
+		if err := from.Inst.SwitchV.ForwardByLabel(f, first); err != nil {
+			return 0, nil, 0, false, false
+		}
+		var p *vmesh.Packet
+		for i, q := range ms.InFlight {
+			if vmesh.Key(q.Data) == key {
+				p = ms.Take(i)
+				break
+			}
+		}
+		for p != nil && crossings < 64 {
+			crossings++
+			o := ms.DeliverLive(p)
+			switch {
+			case o.Escalated != nil:
+				return p.To, o.Escalated, crossings, false, true
+			case o.Forwarded != nil:
+				p = o.Forwarded
+			default:
+				return p.To, nil, crossings, true, true
+			}
+		}
+		return 0, nil, crossings, true, true
+	}
+	for a := 0; a < t.N; a++ {
+		for b := 0; b < t.N; b++ {
+			if a == b {
+				continue
+			}
+			A, B := ms.Nodes[a], ms.Nodes[b]
+			e, _ := A.Inst.RouterV.Table().LookupNearest(B.ID.IP)
+			if e == nil || len(e.Path.Hops) < 2 || len(e.Path.ForwardBlock) == 0 {
+				continue
+			}
+			wit := map[string]any{"mesh": desc, "from": a, "to": b, "hops": len(e.Path.Hops), "forward_block": fmt.Sprintf("%x", e.Path.ForwardBlock), "return_block": fmt.Sprintf("%x", e.Path.ReturnBlock), "case_id": fmt.Sprintf("mesh-live|%s|%d>%d", desc, a, b)}
+			at, got, _, lost, ok := carry(A, B.ID.IP, e.Path.ForwardBlock)
+			if !ok {
+				continue
+			}
+			if lost {
+				res.Inconcl("%s: a frame over route %d->%d did not reappear within the watchdog time at node %d", desc, a, b, at)
+				return
+			}
+			if at != b {
+				res.Violate("traversal-failed:mesh", fmt.Sprintf("%s: a frame carrying the forward block of the %d-hop route %d->%d was handed up at node %d", desc, len(e.Path.Hops), a, b, at), wit)
+				return
+			}
+			sw := int(got[48])
+			blockAtDst := append([]byte(nil), got[49:49+sw]...)
+			m.TransformToReturnBlock(blockAtDst)
+			if !bytes.Equal(blockAtDst, pad(e.Path.ReturnBlock, sw)) {
+				res.Violate("traversal-failed:mesh-return-block", fmt.Sprintf("%s: after the running switches carried the forward block of the %d-hop route %d->%d, the block in the frame reverses to %x, the route's return block is %x", desc, len(e.Path.Hops), a, b, blockAtDst, e.Path.ReturnBlock), wit)
+				return
+			}
+			at2, got2, _, lost2, ok2 := carry(B, A.ID.IP, blockAtDst)
+			if ok2 && !lost2 {
+				if at2 != a {
+					res.Violate("traversal-failed:mesh-return-trip", fmt.Sprintf("%s: a frame sent back over the reversed block of route %d->%d was handed up at node %d, not at the origin", desc, a, b, at2), wit)
+					return
+				}
+				sw2 := int(got2[48])
+				back := append([]byte(nil), got2[49:49+sw2]...)
+				m.TransformToReturnBlock(back)
+				if !bytes.Equal(back, pad(e.Path.ForwardBlock, sw2)) {
+					res.Violate("traversal-failed:mesh-return-trip-block", fmt.Sprintf("%s: the block of the frame that came back over route %d->%d reverses to %x, the route's forward block is %x", desc, a, b, back, e.Path.ForwardBlock), wit)
+					return
+				}
+			}
+			res.Count("mesh_routes_traversed_by_live_switches", 1)
+			res.Case(fmt.Sprintf("mesh-live|%s|%d|%d", desc, len(e.Path.Hops), len(e.Path.ForwardBlock)), true)
 		}
 	}
 }
@@ -668,12 +870,20 @@ func run(c *core.Ctx) {
 			if i%7 == 0 {
 				checkFrameCarrier(res, fb, fwd, ret)
 			}
+			if i%11 == 0 {
+				checkFrameLifecycle(res, fb, r, fwd, ret)
+			}
 		}
 	})
 	meshes := []*vmesh.Topology{vmesh.Line(2), vmesh.Line(3), vmesh.Line(5), vmesh.Ring(4), vmesh.Star(5), vmesh.Grid(3, 3)}
 	parallel(len(meshes)*3, func(w int) {
 		meshTraversal(res, core.RNG(fmt.Sprintf("c12/mesh/%d", w)), meshes[w%len(meshes)], vmesh.LabelMode(w/len(meshes)))
 	})
+	live := []*vmesh.Topology{vmesh.Line(3), vmesh.Line(5), vmesh.Ring(4), vmesh.Grid(2, 3)}
+	parallel(len(live), func(w int) {
+		meshTraversalLive(res, core.RNG(fmt.Sprintf("c12/meshlive/%d", w)), live[w], vmesh.LabelMode(w%3))
+	})
+	res.Require(res.Counter("mesh_routes_traversed_by_live_switches") >= 20 || res.ViolationCount() > 0, "fewer than 20 routes traversed through running switch workers")
 	res.Sample(map[string]any{"hops": 2, "forward_labels": []int{16384, 0}, "return_labels": []int{0, 1}, "note": "two-hop path with a three-byte label (not covered by the repo tests)"})
 	res.Assume("a valid path has hop[0].ReturnLabel == 0 and hop[last].ForwardLabel == 0 and non-zero labels elsewhere (what announcements produce)")
 	res.Require(res.Counter("oversize_paths_refused") >= 100, "fewer than 100 oversize paths exercised")
